@@ -30,12 +30,25 @@ pub struct Out {
     pub dma_calls: usize,
 }
 
-fn install_dealloc_hook(dev: &DevRc) {
+type GpuRc = std::rc::Rc<std::cell::RefCell<crate::c20::GpuDev>>;
+
+fn install_dealloc_hook(dev: &DevRc, gpu: Option<GpuRc>) {
     let dev = dev.clone();
     hal::with(|h| {
         h.dealloc_hook = Some(Box::new(move |paddr, pages| {
             let Ok(d) = dev.try_borrow() else { return None };
             let end = paddr + (pages * PAGE_SIZE) as u64;
+            // Driver-owned memory which the (fault-free) device still has attached to one of its
+            // resources is posted to the device just like a buffer on a queue.
+            if let Some(g) = gpu.as_ref().and_then(|g| g.try_borrow().ok()) {
+                if d.status & crate::dev::ST_DRIVER_OK != 0 {
+                    for (id, a, l) in g.attached() {
+                        if a < end && paddr < a + l as u64 {
+                            return Some(("dma-freed-while-attached".to_string(), format!("DMA region {:#x} (+{} pages) returned to the platform while the live device still has it attached as backing of resource {:#x}", paddr, pages, id)));
+                        }
+                    }
+                }
+            }
             for (qi, q) in d.queues.iter().enumerate() {
                 if !d.live_on(qi) {
                     continue;
@@ -217,9 +230,20 @@ fn usage<T: Transport>(d: &mut AnyDriver<T>, co: &CoRc, steps: usize, keep: &mut
                 1 => {
                     let _ = g.setup_cursor(&vec![0u8; 64 * 64 * 4], 1, 2, 3, 4);
                 }
-                _ => {
+                2 => {
                     let _ = g.change_resolution(33, 32).map(|fb| fb.len());
                     let _ = g.flush();
+                }
+                // The same operations again: what they replace must not be released while the
+                // device still uses it.
+                3 => {
+                    let _ = g.setup_cursor(&vec![0x55u8; 64 * 64 * 4], 5, 6, 7, 8);
+                }
+                4 => {
+                    let _ = g.change_resolution(16, 8).map(|fb| fb.len());
+                }
+                _ => {
+                    let _ = g.setup_framebuffer().map(|fb| fb.len());
                 }
             },
             AnyDriver::P9(p) => {
@@ -238,10 +262,10 @@ pub fn run_case(case: &Case) -> Out {
         cfg.truncate(l);
     }
     let w = DWorld::new(case.kind, case.tkind, case.offered, cfg);
-    install_dealloc_hook(&w.dev);
+    let gd: GpuRc = std::rc::Rc::new(std::cell::RefCell::new(crate::c20::GpuDev { display: (40, 30), ..Default::default() }));
+    install_dealloc_hook(&w.dev, if case.kind == Kind::Gpu { Some(gd.clone()) } else { None });
     let co = if case.kind == Kind::Gpu {
         // The GPU needs meaningful answers for its allocating operations.
-        let gd = std::rc::Rc::new(std::cell::RefCell::new(crate::c20::GpuDev { display: (40, 30), ..Default::default() }));
         CoDevice::new(
             w.dev.clone(),
             Box::new(move |q, chain, readable| {
